@@ -6,7 +6,7 @@ running generated `cases` files through coqc (vm_compute inside), the proof gate
 findings, replay files, evidence files and the VIOLATION protocol.
 """
 import hashlib
-import json
+import json, shutil
 import math
 import os
 import random
@@ -221,10 +221,17 @@ def coq_run(prop, name, text, timeout=600):
     with open(path, "w") as f:
         f.write(text)
     try:
-        rc, out = sh(["bash", "-c", "ulimit -s unlimited 2>/dev/null; exec coqc -q " +
+        rc, out = sh(["bash", "-c", "ulimit -s unlimited 2>/dev/null; exec coqc -q -noglob " +
                       " ".join(COQ_ARGS) + " -Q %s Cases_%s %s" % (d, prop, path)], timeout=timeout, cwd=d)
     except subprocess.TimeoutExpired:
         return False, "TIMEOUT"
+    finally:
+        # only the printed values are used; the compiled case file is scratch (disk space is limited)
+        for ext in (".vo", ".vok", ".vos", ".glob"):
+            try:
+                os.remove(os.path.join(d, name + ext))
+            except OSError:
+                pass
     return rc == 0, out
 
 
@@ -398,6 +405,8 @@ class Ctx:
             self.seed = int(hashlib.sha256(str(s).encode()).hexdigest()[:8], 16)
         self.rng = random.Random(self.seed * 1000003 + int(prop[1:]))
         self.t0 = time.time()
+        # scratch case files of earlier runs are not needed again (disk space is limited)
+        shutil.rmtree(os.path.join(BUILD, prop), ignore_errors=True)
         self.cov = {"evaluations": 0, "distinct_nontrivial": 0, "rule": "", "samples": [],
                     "obligations": 0, "discharged": 0, "checker_cmd": "", "trusted_base": [],
                     "programs": 0, "disagreements_checked": 0}
